@@ -354,6 +354,10 @@ def run_witnesses(c, binary, pid):
 def run_scenarios(c, binary, tag, clauses, classify):
     """The scripted histories of Model/SMScenarios.v: model outputs computed in coqc, the same events run on the real
     state machine, outputs compared event by event, monitors evaluated on the implementation's observations."""
+    okm, mlog = c.coq_make(["Model/SMScenarios.vo", "Monitors/SMm.vo"])
+    if not okm:
+        c.fail_obligation("model-build (scenarios)", mlog[-1500:])
+        return
     body = HEADER.replace("Model.SMWalk.", "Model.SMWalk Model.SMScenarios.") + \
         "Definition rep := Eval vm_compute in scenario_report.\nPrint rep.\n"
     ok, txt = c.coq_eval("sm_scen_%s" % tag, body)
